@@ -117,6 +117,12 @@ func readHeader(reader io.ReaderAt) (map[[2]byte]uint64, map[string]string, int6
 	if err != nil {
 		return nil, nil, 0, fmt.Errorf("failed to read header size: %w", err)
 	}
+	// The size comes from the file: refuse what cannot be a header before allocating it
+	// (the header holds at most one 10-byte entry per 16-bit prefix plus a few metadata strings).
+	const maxHeaderSize = 1 << 20
+	if headerSize > maxHeaderSize {
+		return nil, nil, 0, fmt.Errorf("header size %d exceeds the maximum %d", headerSize, maxHeaderSize)
+	}
 	// read header bytes:
 	headerBuf := make([]byte, headerSize)
 	if _, err := reader.ReadAt(headerBuf, 4); err != nil {
@@ -152,6 +158,10 @@ func readHeader(reader io.ReaderAt) (map[[2]byte]uint64, map[string]string, int6
 		if err != nil {
 			return nil, nil, 0, fmt.Errorf("failed to read numMeta: %w", err)
 		}
+		// every pair takes at least 8 bytes of the header (two length prefixes)
+		if numMeta > uint64(headerSize)/8 {
+			return nil, nil, 0, fmt.Errorf("numMeta %d exceeds what the header can hold", numMeta)
+		}
 		meta := make(map[string]string, numMeta)
 		for i := uint64(0); i < numMeta; i++ {
 			key, err := decoder.ReadString()
@@ -171,6 +181,10 @@ func readHeader(reader io.ReaderAt) (map[[2]byte]uint64, map[string]string, int6
 		return nil, nil, 0, fmt.Errorf("failed to read numPrefixes: %w", err)
 	}
 	// prefix -> offset:
+	// every entry takes 10 bytes of the header
+	if numPrefixes > uint64(headerSize)/10 {
+		return nil, nil, 0, fmt.Errorf("numPrefixes %d exceeds what the header can hold", numPrefixes)
+	}
 	prefixToOffset := make(map[[2]byte]uint64, numPrefixes)
 	for i := uint64(0); i < numPrefixes; i++ {
 		var prefix [2]byte
